@@ -371,15 +371,15 @@ func (r *MatchDNSRule) Match(cx context.Context, qClass string, qType string, qN
 
 func (r *MatchDNSRule) Provision(_ caddy.Context) (err error) {
 	repl := caddy.NewReplacer()
-	r.classRegexp, err = regexp.Compile(repl.ReplaceAll(r.ClassRegexp, ""))
+	r.classRegexp, err = regexp.Compile(repl.ReplaceKnown(r.ClassRegexp, ""))
 	if err != nil {
 		return err
 	}
-	r.typeRegexp, err = regexp.Compile(repl.ReplaceAll(r.TypeRegexp, ""))
+	r.typeRegexp, err = regexp.Compile(repl.ReplaceKnown(r.TypeRegexp, ""))
 	if err != nil {
 		return err
 	}
-	r.nameRegexp, err = regexp.Compile(repl.ReplaceAll(r.NameRegexp, ""))
+	r.nameRegexp, err = regexp.Compile(repl.ReplaceKnown(r.NameRegexp, ""))
 	if err != nil {
 		return err
 	}
